@@ -353,3 +353,26 @@ Definition run_dir (s : string) : string := show_opt view_dir (parse_dir s).
 Definition run_rt (s : string) : string := show_opt view_rt (parse_rt s).
 Definition run_st (s : string) : string := show_opt view_st (parse_st s).
 Definition run_lv (s : string) : string := show_opt view_lv (parse_lv s).
+
+(* generated cases: the harness also hands over the generating tree and the blank strings it used, so that the
+   kernel confirms the string given to the real parser IS [print a ws] of a well-formed tree (i.e. lies in the
+   domain of the parse_print theorems).  Gaps are written with the letters s (blank) and t (tab), "|"-separated. *)
+Definition sc (n : nat) : string := String (ascii_of_nat n) EmptyString.
+Fixpoint decode_ws_aux (cur : string) (s : string) : list string :=
+  match s with
+  | EmptyString => [cur]
+  | String c r =>
+      if Ascii.eqb c "|"%char then cur :: decode_ws_aux EmptyString r
+      else decode_ws_aux (cur ++ (if Ascii.eqb c "t"%char then sc 9 else " ")) r
+  end.
+Definition decode_ws (s : string) : list string := decode_ws_aux EmptyString s.
+
+Definition chk {A : Type} (pr : A -> list string -> string) (wf : A -> bool) (run : string -> string)
+           (a : A) (ws : string) (s : string) : string :=
+  (if String.eqb (pr a (decode_ws ws)) s then "P" else "p") ++ (if wf a then "W" else "w")
+  ++ (if blanks (decode_ws ws) then "B" else "b") ++ "|" ++ run s.
+Definition chk_eq := chk print_eq wf_einsum run_eq.
+Definition chk_dir := chk print_dir wf_dir run_dir.
+Definition chk_rt := chk print_rt wf_rt run_rt.
+Definition chk_st := chk print_st wf_st run_st.
+Definition chk_lv := chk print_lv wf_lv run_lv.
